@@ -86,10 +86,15 @@ def units(t):
 
 def helper_values(fn_name, nmax):
     cs = record.lib()
-    if fn_name == "bin":
-        from checkpoint_schedules import optimal_steps_binomial as fn
-    else:
-        from checkpoint_schedules.mixed import optimal_steps_mixed as fn
+    try:
+        if fn_name == "bin":
+            from checkpoint_schedules import optimal_steps_binomial as fn      # public helper (C05)
+        else:
+            from checkpoint_schedules.mixed import optimal_steps_mixed as fn   # internal: optional
+    except ImportError:
+        if fn_name == "bin":
+            raise fw.Machinery("the public helper optimal_steps_binomial cannot be imported")
+        return []
     out = []
     for n in range(1, nmax + 1):
         for s in range(1 if n > 1 else 0, n + 2):
